@@ -105,6 +105,7 @@ func checkC09(p *Prog, res *Result, tier string) {
 	res.rule("C09-R2", "the compaction revision is clamped to the committed revision and to MinRevision()-1 of the repair queue", 1)
 	res.rule("C09-R3", "repair write shape and queue discipline", 5)
 	res.rule("C09-R4", "engine-commit error classification of the TiKV adapter", 3)
+	res.rule("C09-R6", "on the write path the error of a committing call is returned as is (or wrapped) unless it was found nil or classified (errors.Is / == sentinel / conflict assertion)", 6)
 	res.rule("C09-R5", "a nil error is returned to the client only after success or a definite failure class", 6)
 
 	seq := r.Sequencer
@@ -226,6 +227,46 @@ func checkC09(p *Prog, res *Result, tier string) {
 
 	// ---- R4 ----
 	checkCommitClassification(p, r, res)
+
+	// ---- R6: the error of a committing call is never replaced on the write path ----
+	{
+		committing := map[*ssa.Function]bool{}
+		for iter := 0; iter < 6; iter++ {
+			for _, f := range p.AllFuncs {
+				if committing[f] || f.Pkg == nil || !strings.HasPrefix(f.Pkg.Pkg.Path(), modPath+"/pkg/backend") || strings.HasPrefix(f.Pkg.Pkg.Path(), modPath+"/pkg/backend/scanner") {
+					continue
+				}
+				for _, c := range callsIn(f) {
+					if (r.is(c, r.BWCommit) && c.Common().IsInvoke()) || (c.Common().StaticCallee() != nil && committing[c.Common().StaticCallee()]) {
+						committing[f] = true
+					}
+					for _, g := range p.calleesOf(c) {
+						if c.Common().IsInvoke() && committing[g] && strings.Contains(funcName(g), "creator") {
+							committing[f] = true
+						}
+					}
+				}
+			}
+		}
+		inScope := func(f *ssa.Function) bool { return committing[f] }
+		fallible := func(c ssa.CallInstruction) (string, bool) {
+			if r.is(c, r.BWCommit) && c.Common().IsInvoke() {
+				return "BatchWrite.Commit", true
+			}
+			if sc := c.Common().StaticCallee(); sc != nil && committing[sc] {
+				return funcName(sc), true
+			}
+			if c.Common().IsInvoke() {
+				for _, g := range p.calleesOf(c) {
+					if committing[g] {
+						return c.Common().Method.Name(), true
+					}
+				}
+			}
+			return "", false
+		}
+		checkErrorPreservation(p, res, "C09-R6", inScope, fallible, "an unknown-outcome (or any unclassified) commit error would reach the client as success or as a definite failure, and the write would never be queued for repair")
+	}
 
 	// ---- R5 ----
 	for _, m := range []*types.Func{r.BCreate, r.BUpdate, r.BDelete} {
